@@ -91,6 +91,17 @@ TABLE = {
         "Lattice and depth bounded; repricing tolerance propagated from brentq's tolerances.",
         "6/C20",
     ),
+    "C06": (
+        "model_checking",
+        "exhaustive lattice of variance/cost vectors + stateless choice exploration of the adaptive loop (same driver as C05) with termination / stopping-rule oracles",
+        "All variance/cost vectors over stated alphabets are pushed through the allocation and checked against the budget "
+        "that the behaviourally measured bias tolerance leaves of rmse^2; every explored run of the real adaptive loop must "
+        "terminate, stay at or below the maximum level, return only after a passed bias test or at the maximum level, with "
+        "every level within 1 % of its optimal size.",
+        "Scripted coupling; horizon 40 batches per level; bias tolerance and variance share measured from the criteria "
+        "object's behaviour; zero-cost levels are a recorded finding.",
+        "6/C06",
+    ),
 }
 
 READY = []  # filled from checks/ below; a module must define PID
